@@ -10,6 +10,7 @@
 (*  "pair"    in [a, b]             two civil dates, DAYS / DATEDIF             *)
 (*  "edate"   in [a, k]             EDATE                                       *)
 (*  "wtype"   in [n, type]          WEEKDAY with an unsupported numbering       *)
+(*  "shift"   in [y, mo, d, ms, n, op]  date-time +- n whole days               *)
 EXTENDS TraceKit, XLOps, XLDateFn
 CONSTANT OpenDevs
 
@@ -102,6 +103,13 @@ Verdict(o) ==
                   LET e == EDate(o.in.a, o.in.k) IN
                   IF e.ok THEN Cl("EDATE", IsD(r[1], e, 0)) ELSE Cl("EDATE_out_of_range", IsE(r[1], "#NUM!"))
              [] o.kind = "wtype" -> Cl("WEEKDAY_type", IsE(r[1], "#NUM!"))
+             [] o.kind = "shift" ->      \* a date-time moved by whole days (C06): same time of day, to the millisecond, on the other day
+                  LET t == DayNumber(o.in.y, o.in.mo, o.in.d) + (IF o.in.op = "-" THEN -o.in.n ELSE o.in.n)
+                      c == CivilFromDayNumber(t)
+                      Near(v) == v.t = "date" /\ v.y = c.y /\ v.mo = c.mo /\ v.d = c.d
+                                 /\ v.ms - o.in.ms <= 1 /\ o.in.ms - v.ms <= 1
+                  IN IF t < FirstExcelDay \/ t > LastDay THEN <<>>
+                     ELSE Cl("date_time_moved_by_days", Near(r[1]) /\ Near(r[2]))
   IN IF f = <<>> THEN <<"ok">> ELSE <<"bad">> \o f
 
 Inv == PrintT(<<"V", O.id>> \o Verdict(O))
